@@ -309,3 +309,160 @@ Definition c10_count_case (cr : bool) (edges : list Q) (binned1 hasw1 : bool) (c
     populated_kept obs1 s1; empty_kept obs1 s1;
     populated_kept obs2 s2; empty_kept obs2 s2
   ].
+
+(* ---------- the tree cache of a catalog and its histories ----------
+   catalog/trees.py: BinnedTrees.build(patch, binning, force) keeps the cached trees of THIS patch
+   when the binning stored with them equals the requested one (and not force), otherwise rebuilds
+   them; catalog/catalog.py: Catalog.build_trees maps it over all patches (sorted patch ids; serial
+   for max_workers = 1).  The cache of a catalog is therefore one entry per patch, and the entries
+   of one catalog may hold trees for DIFFERENT binnings: per-patch builds on a subset of the
+   patches, a catalog-wide build that was interrupted after some patches. *)
+Definition bkey := option binning.       (* None: trees without binning (one tree over all objects) *)
+Definition bkey_eqb (a b : bkey) : bool :=
+  match a, b with
+  | None, None => true
+  | Some x, Some y => binning_eqb x y
+  | _, _ => false
+  end.
+(* the trees BinnedTrees.build writes for a patch (repaired build_trees; see c10_cache_case, flag 8) *)
+Definition trees_for (hasw : bool) (k : bkey) (objs : list obj) : list tree :=
+  match k with
+  | Some (cr, edges) => build_trees_fix hasw cr edges objs
+  | None => [make_tree hasw objs]
+  end.
+(* cache entry of one patch: None = no (valid) trees: the `binning` file is missing *)
+Definition centry := option (bkey * list tree).
+Definition needs_rebuild (force : bool) (k : bkey) (c : centry) : bool :=
+  match c with
+  | Some (k', _) => force || negb (bkey_eqb k' k)
+  | None => true
+  end.
+Definition patch_build (hasw force : bool) (k : bkey) (objs : list obj) (c : centry) : centry :=
+  if needs_rebuild force k c then Some (k, trees_for hasw k objs) else c.
+
+(* Catalog.build_trees, run to completion *)
+Fixpoint cat_build (hasw force : bool) (k : bkey) (patches : list (list obj)) (c : list centry) : list centry :=
+  match patches, c with
+  | objs :: ps, e :: cs => patch_build hasw force k objs e :: cat_build hasw force k ps cs
+  | _, _ => c
+  end.
+(* Catalog.build_trees, interrupted: the patches are visited in order; `fuel` rebuilds complete, the next
+   patch that needs a rebuild is hit while its trees are written (BinnedTrees.build has removed the
+   `binning` file already: no valid trees), no patch after it is visited *)
+Fixpoint cat_build_intr (hasw force : bool) (k : bkey) (patches : list (list obj)) (c : list centry)
+    (fuel : nat) : list centry :=
+  match patches, c with
+  | objs :: ps, e :: cs =>
+      if needs_rebuild force k e then
+        match fuel with
+        | O => None :: cs
+        | S f => Some (k, trees_for hasw k objs) :: cat_build_intr hasw force k ps cs f
+        end
+      else e :: cat_build_intr hasw force k ps cs fuel
+  | _, _ => c
+  end.
+(* BinnedTrees.build on the listed patches only, in this order *)
+Definition patches_build (hasw force : bool) (k : bkey) (patches : list (list obj)) (c : list centry)
+    (ids : list nat) : list centry :=
+  fold_left (fun c p => upd c p (patch_build hasw force k (nth p patches []) (nth p c None))) ids c.
+
+Inductive hstep : Type :=
+| HPatches (ids : list nat) (force : bool) (k : bkey)
+| HCatalog (force : bool) (k : bkey)                 (* also: a measurement run with this binning *)
+| HInterrupted (fuel : nat) (force : bool) (k : bkey).
+Definition hstep_apply (hasw : bool) (patches : list (list obj)) (c : list centry) (s : hstep) : list centry :=
+  match s with
+  | HPatches ids force k => patches_build hasw force k patches c ids
+  | HCatalog force k => cat_build hasw force k patches c
+  | HInterrupted fuel force k => cat_build_intr hasw force k patches c fuel
+  end.
+Definition run_history (hasw : bool) (patches : list (list obj)) (hist : list hstep) (c : list centry) : list centry :=
+  fold_left (hstep_apply hasw patches) hist c.
+Definition cache_init (np : nat) : list centry := repeat None np.
+
+(* every cached entry holds the trees of the binning stored with it *)
+Definition entry_valid (hasw : bool) (objs : list obj) (c : centry) : Prop :=
+  match c with Some (k, t) => t = trees_for hasw k objs | None => True end.
+Definition cache_valid (hasw : bool) (patches : list (list obj)) (c : list centry) : Prop :=
+  Forall2 (entry_valid hasw) patches c.
+
+(* the trees a measurement reads from the cache (BinnedTrees(patch) per patch) *)
+Definition cache_trees (c : list centry) : list (list tree) :=
+  map (fun e : centry => match e with Some (_, t) => t | None => [] end) c.
+
+(* a variant of Catalog.build_trees that skips the whole catalog when the binning stored with the
+   FIRST patch is the requested one ("the patches of a catalog are always processed together"):
+   refuted in Proofs/BinningP.v *)
+Definition first_is (k : bkey) (c : list centry) : bool :=
+  match c with Some (k', _) :: _ => bkey_eqb k' k | _ => false end.
+Definition cat_build_first (hasw force : bool) (k : bkey) (patches : list (list obj)) (c : list centry) : list centry :=
+  if negb force && first_is k c then c else cat_build hasw force k patches c.
+
+(* ---------- checker for one cache history ---------- *)
+Definition centry_eqb (a b : centry) : bool :=
+  opt_eqb (fun x y => bkey_eqb (fst x) (fst y) && trees_eqb (snd x) (snd y)) a b.
+Definition cache_eqb := list_eqb centry_eqb.
+Definition hstep_key (s : hstep) : bkey :=
+  match s with HPatches _ _ k => k | HCatalog _ k => k | HInterrupted _ _ k => k end.
+Definition hstep_ids_ok (np : nat) (s : hstep) : bool :=
+  match s with HPatches ids _ _ => forallb (fun p => (p <? np)%nat) ids | _ => true end.
+(* the binning is one parse_binning accepts, and every patch holds an object inside it (the build_trees of
+   the pinned commit raises otherwise: C10_build_trees_cur_spec) *)
+Definition key_ok (patches : list (list obj)) (k : bkey) : bool :=
+  match k with
+  | None => true
+  | Some (cr, edges) =>
+      increasingb edges && (2 <=? length edges)%nat &&
+      forallb (fun objs => existsb (keep (nbins edges)) (bin_idx cr edges objs)) patches
+  end.
+(* what the spec says the cache must hold after a build with key k: per patch the trees of `member` *)
+Definition spec_trees_for (hasw : bool) (k : bkey) (objs : list obj) : list tree :=
+  match k with
+  | Some (cr, edges) => spec_trees hasw cr edges objs
+  | None => [(length objs, qsumr (map (ow hasw) objs))]
+  end.
+Definition entry_trees (c : centry) : option (list tree) := option_map snd c.
+Definition entry_key_is (k : bkey) (c : centry) : bool :=
+  match c with Some (k', _) => bkey_eqb k' k | None => false end.
+
+(* one case: weight column?, objects per patch, the history of the cache (from an empty cache), the
+   measured catalog-wide build (force, key); medges: the bin edges of the measurement (= the key's
+   edges for a binned key; for key None they fix the number of rows of sum_weights);
+   observed: the cache before the measured build, the cache after it, HistData (binned key only),
+   the (bins x patches) sum_weights of the measurement for this catalog.
+   flags: 0 model of the cache after history + measured build = observed cache (keys and trees)
+          1 observed trees of every patch = spec (the closed-side rule of the REQUESTED binning)
+          2 every patch reports the requested binning
+          3 histogram = spec (when observed)
+          4 trees / histogram / measurement mutually consistent (binned key)
+          5 model of the cache after the history = observed cache before the measured build
+          6 histogram = model of the CURRENT histogram                 (classification only)
+          7 measurement sum_weights = spec (when observed)
+          8 hypotheses: every binning of the history and the requested one is valid and every patch holds
+            an object inside it; patch ids of the history exist; medges valid
+          9 every patch whose observed trees differ from the spec still holds exactly the entry it
+            held before the measured build (stale trees were kept)   (classification only) *)
+Definition c10_cache_case (hasw : bool) (patches : list (list obj)) (hist : list hstep)
+    (force : bool) (k : bkey) (medges : list Q)
+    (obs_pre obs_post : list centry) (impl_hist : option (list Q)) (impl_meas : option (list (list Q))) : nat :=
+  let np := length patches in
+  let pre := run_history hasw patches hist (cache_init np) in
+  let post := cat_build hasw force k patches pre in
+  let binned := match k with Some _ => true | None => false end in
+  let cr := match k with Some (cr, _) => cr | None => false end in
+  let spec_post := map (fun objs => Some (spec_trees_for hasw k objs)) patches in
+  code [
+    cache_eqb obs_post post;
+    list_eqb (opt_eqb trees_eqb) (map entry_trees obs_post) spec_post;
+    forallb (entry_key_is k) obs_post && (length obs_post =? np)%nat;
+    match impl_hist with Some h => binned && qlist_eqb h (spec_hist hasw cr medges patches) | None => true end;
+    negb binned || consistent hasw (nbins medges) (map entry_trees obs_post) impl_hist impl_meas;
+    cache_eqb obs_pre pre;
+    match impl_hist with Some h => qlist_eqb h (cat_hist_cur hasw cr medges patches) | None => true end;
+    match impl_meas with Some m => qmat_eqb m (spec_side binned hasw cr medges patches) | None => true end;
+    forallb (key_ok patches) (k :: map hstep_key hist) && forallb (hstep_ids_ok np) hist &&
+      increasingb medges && (2 <=? length medges)%nat &&
+      match k with Some (_, e) => qlist_eqb e medges | None => true end;
+    forallb (fun x => opt_eqb trees_eqb (entry_trees (snd (fst x))) (snd x) || centry_eqb (snd (fst x)) (fst (fst x)))
+            (combine (combine obs_pre obs_post) spec_post)
+  ].
